@@ -214,9 +214,9 @@ def writer_fields(ctx, F, em):
     dash = cast[4] if len(cast) == 5 else None
     flag = None
     if dash:
-        g = [x for x in dash[3] if x[0] == "if" and x[2] is True]
-        if g and g[0][1][0] == "not" and g[0][1][1][0] == "var":
-            flag = g[0][1][1][1]
+        g = [x for x in dash[3] if x[0] == "if" and x[2] is False and x[1][0] == "var"]
+        if g:
+            flag = g[-1][1][1]
     if flag:
         for n, anc in hir.walk(body):
             if n.get("k") == "Assign" and hir.strip(n["l"]).get("to", {}).get("name") == flag and hir.strip(n["r"]).get("v") is True:
